@@ -127,7 +127,7 @@ def replay(ck, scen_files, pid_preds, realB=1024):
                          {'cmd': 'replay-reader', 'scenario': scen.get(r['sid']), 'result': r, 'realB': realB}, name='replay')
     if results:
         ck.sample({'replay_scenario': results[0]['sid'], 'status': results[0]['status'], 'steps': results[0]['steps']})
-    if n and len(drift) > max(2, 0.05 * n):
+    if n and len(drift) > max(2, 0.05 * n) and not viol:
         raise kzv.ToolFailure('model drift: %d of %d replays could not follow the model, e.g. %s' % (
             len(drift), n, json.dumps({k: v for k, v in drift[0].items() if k != 'events'})))
     if drift:
